@@ -128,3 +128,94 @@ def inline_simple_calls(expr: ast.AST, module_functions: Dict[str, ast.FunctionD
             self.d -= 1
             return r
     return ast.fix_missing_locations(S().visit(clone(expr)))
+
+
+# --------------------------------------------------------------------------------------------- canonical form of a function body
+def _is_attr_path(e: ast.AST) -> bool:
+    return isinstance(e, ast.Attribute) and dotted_name(e) is not None
+
+
+def canonical_function(fn_node: ast.FunctionDef, unnest: bool = True) -> ast.FunctionDef:
+    """A parent-linked clone of the function in which two harmless restructurings are undone, so that rules written against the plain
+    form keep matching:
+      * a local bound exactly once to a pure attribute path (`cum = self.TotalCummRevenue.value`) is replaced by that path wherever it
+        is read or subscripted (pure aliasing: same object), provided the path itself is not re-bound anywhere in the function;
+      * inside loop bodies `if <test>: continue` followed by more statements becomes `if not <test>: <those statements>`
+        (a double negation `not (not x)` / `not (x)` is simplified)."""
+    from .srcmodel import set_parents
+    if not unnest and not any(isinstance(n, ast.Assign) and len(n.targets) == 1 and isinstance(n.targets[0], ast.Name) and _is_attr_path(n.value)
+                              and norm(n.value).count('.') >= 2 for n in ast.walk(fn_node)):
+        return fn_node
+    f = clone(fn_node)
+    # ---- attribute aliases
+    counts: Dict[str, int] = {}
+    for n in ast.walk(f):
+        if isinstance(n, ast.Name) and isinstance(n.ctx, ast.Store):
+            counts[n.id] = counts.get(n.id, 0) + 1
+    rebinds = [(norm(t), n.lineno) for n in ast.walk(f) if isinstance(n, (ast.Assign, ast.AugAssign))
+               for t in (n.targets if isinstance(n, ast.Assign) else [n.target]) if isinstance(t, ast.Attribute)]
+    aliases: Dict[str, ast.AST] = {}
+    for n in ast.walk(f):
+        if isinstance(n, ast.Assign) and len(n.targets) == 1 and isinstance(n.targets[0], ast.Name) and counts.get(n.targets[0].id) == 1 \
+                and _is_attr_path(n.value):
+            path = norm(n.value)
+            # the alias denotes the same object only while neither the path nor one of its prefixes is re-bound afterwards
+            if any((path == r or path.startswith(r + '.')) and ln >= n.lineno and ln != n.lineno for r, ln in rebinds):
+                continue
+            # keep short, conventional names of whole model parts as they are (econ = model.economics): rules use them as written
+            if path.count('.') < 2:
+                continue
+            aliases[n.targets[0].id] = n.value
+
+    class A(ast.NodeTransformer):
+        def visit_Name(self, n):
+            if isinstance(n.ctx, ast.Load) and n.id in aliases:
+                return clone(aliases[n.id])
+            return n
+    if aliases:
+        f = A().visit(f)
+
+    # ---- guard clauses with continue
+    def neg(t: ast.AST) -> ast.AST:
+        if isinstance(t, ast.UnaryOp) and isinstance(t.op, ast.Not):
+            return t.operand
+        return ast.UnaryOp(op=ast.Not(), operand=t)
+
+    def fix_body(body: List[ast.stmt]) -> List[ast.stmt]:
+        out: List[ast.stmt] = []
+        for i, st in enumerate(body):
+            if isinstance(st, ast.If) and not st.orelse and st.body and isinstance(st.body[-1], ast.Continue) and \
+                    all(isinstance(x, (ast.Continue, ast.Expr, ast.Pass)) for x in st.body) and body[i + 1:]:
+                rest = fix_body(body[i + 1:])
+                side = [x for x in st.body if not isinstance(x, (ast.Continue, ast.Pass))]
+                new_if = ast.If(test=neg(st.test), body=rest, orelse=side)
+                ast.copy_location(new_if, st)
+                out.append(new_if)
+                return out
+            out.append(st)
+        return out
+
+    if unnest:
+        for n in ast.walk(f):
+            if isinstance(n, (ast.For, ast.While)):
+                n.body = fix_body(n.body)
+    ast.fix_missing_locations(f)
+    set_parents(f)
+    return f
+
+
+def canonicalise_module(tree: ast.Module) -> None:
+    """In place: every function of the module gets its attribute aliases inlined (the continue-guard un-nesting of canonical_function
+    is left to the rules that ask for it: several rules are written against the guard-clause form)."""
+    from .srcmodel import set_parents
+
+    class T(ast.NodeTransformer):
+        def visit_FunctionDef(self, n):
+            self.generic_visit(n)
+            try:
+                return canonical_function(n, unnest=False)
+            except Exception:
+                return n
+    T().visit(tree)
+    ast.fix_missing_locations(tree)
+    set_parents(tree)
